@@ -56,6 +56,8 @@ type c11Behaviour struct {
 	LoseCount int    `json:"lose_count,omitempty"`
 	LoseWhat  string `json:"lose_what,omitempty"` // "" = the query never reaches the server | "answer" = the server acts on it, its answer is lost
 	DataSeed  int64  `json:"data_seed"`
+	// host names inside answers (CNAME, MX, SRV targets) come back lower- / upper-cased
+	AnswerCase string `json:"answer_case,omitempty"`
 	// the tunnel domain, when it is not the usual t.example.org (the length of the domain decides how much room the probes
 	// and packets of every codec have in a query name)
 	Domain string `json:"domain,omitempty"`
@@ -143,6 +145,9 @@ func (b *c11Behaviour) Class() string {
 	if b.LoseCmd != "" {
 		p = append(p, fmt.Sprintf("negotiation-loses-%s%s#%d+%d", b.LoseWhat, b.LoseCmd, b.LoseFrom, b.LoseCount))
 	}
+	if b.AnswerCase != "" {
+		p = append(p, "answer-names="+b.AnswerCase)
+	}
 	if b.Domain != "" {
 		p = append(p, fmt.Sprintf("domain-of-%d-characters", len(b.Domain)))
 	}
@@ -171,11 +176,12 @@ const (
 	c11ATcSize                  // loss: answer above the size limit truncated (TC, no records)
 	c11ServerSilent             // loss: the server itself sent nothing (onMessage error / pack failure)
 	c11QLostOnce                // loss: a query of the negotiation lost by the transient fault
-	c11RewriteMask  = c11CaseChanged | c11HiReplaced | c11EdnsStripped
+	c11AnsCase                  // rewrite: letters of the host names in an answer's record data changed case
+	c11RewriteMask  = c11CaseChanged | c11HiReplaced | c11EdnsStripped | c11AnsCase
 )
 
 var c11FateNames = []string{"case-changed", "8bit-replaced", "edns0-stripped", "query-dropped(8bit)", "query-dropped(type)",
-	"answer-nxdomain(type)", "answer-empty(type)", "answer-dropped(size)", "answer-truncated(size)", "server-sent-nothing", "negotiation-query-lost(transient)"}
+	"answer-nxdomain(type)", "answer-empty(type)", "answer-dropped(size)", "answer-truncated(size)", "server-sent-nothing", "negotiation-query-lost(transient)", "answer-host-names-case-changed"}
 
 func c11FateClass(bits int) string {
 	if bits&^c11RewriteMask != 0 {
@@ -504,6 +510,43 @@ func (p *c11Path) Answer(q *mdns.Msg, a *mdns.Msg, wire []byte) *mdns.Msg {
 		}
 		p.push(fate | c11ADropSize)
 		return nil
+	}
+	if b.AnswerCase != "" {
+		// a resolver that normalises the case of the host names it hands out (CNAME, MX and SRV targets are names)
+		fold := func(name string) string {
+			out := []byte(name)
+			for i, c := range out {
+				if (c >= 'a' && c <= 'z') || (c >= 'A' && c <= 'Z') {
+					if b.AnswerCase == "lower" {
+						out[i] = c | 0x20
+					} else {
+						out[i] = c &^ 0x20
+					}
+				}
+			}
+			return string(out)
+		}
+		changed := false
+		for _, rr := range a.Answer {
+			switch t := rr.(type) {
+			case *mdns.CNAME:
+				if n := fold(t.Target); n != t.Target {
+					t.Target, changed = n, true
+				}
+			case *mdns.MX:
+				if n := fold(t.Mx); n != t.Mx {
+					t.Mx, changed = n, true
+				}
+			case *mdns.SRV:
+				if n := fold(t.Target); n != t.Target {
+					t.Target, changed = n, true
+				}
+			}
+		}
+		if changed {
+			p.push(fate | c11AnsCase)
+			return c11Rewire(a)
+		}
 	}
 	p.push(fate)
 	return a
@@ -1152,6 +1195,21 @@ func c11Behaviours(rec *vcommon.Rec) []*c11Behaviour {
 			}
 		}
 	}
+	// resolvers that normalise the case of host names in the answers they hand out, alone and together with case folding of
+	// the query names, on paths where host-name records are what is left
+	for _, ac := range []string{"lower", "upper"} {
+		add(c11Behaviour{AnswerCase: ac})
+		for _, ts := range [][]string{{"CNAME"}, {"MX"}, {"SRV"}, {"CNAME", "MX", "A"}, {"TXT", "SRV", "MX", "CNAME"}, {"SRV", "AAAA"}} {
+			for i, rf := range refuses {
+				add(c11Behaviour{AnswerCase: ac, Types: ts, Refuse: rf})
+				if i == 0 {
+					add(c11Behaviour{AnswerCase: ac, Types: ts, Refuse: rf, Case: ac})
+					add(c11Behaviour{AnswerCase: ac, Types: ts, Refuse: rf, SevenBit: "qmark"})
+					add(c11Behaviour{AnswerCase: ac, Types: ts, Refuse: rf, Limit: 1024, Oversize: "drop"})
+				}
+			}
+		}
+	}
 	// other tunnel domains: the room that is left in a query name shrinks with the domain, down to where probes of the
 	// denser codecs do not fit any more
 	{
@@ -1184,7 +1242,7 @@ func c11Behaviours(rec *vcommon.Rec) []*c11Behaviour {
 				add(b)
 			}
 		}
-		for len(out) < 900 {
+		for len(out) < 980 {
 			add(random())
 		}
 	}
